@@ -13,7 +13,8 @@
 //! oracle: C20 restated on the observations alone: every read of the corrupted file equals the read of the
 //!        original or is an error; `verify(deep) = Passed` implies no read differs.
 use memvid_core::io::header::HeaderCodec;
-use memvid_core::types::{CanonicalEncoding, Frame, FrameRole, Toc};
+use memvid_core::footer::find_last_valid_footer;
+use memvid_core::types::{CanonicalEncoding, Frame, FrameRole, FrameStatus, Toc};
 use memvid_core::{Memvid, MemoryCard, MemoryKind, PutOptions, SearchRequest, TimelineQuery, VersionRelation};
 use mvh::*;
 use std::collections::BTreeMap;
@@ -152,6 +153,11 @@ fn observe(mem: &mut Memvid, obs: &mut BTreeMap<String, String>, p: &str) {
             Ok(t) => { obs.insert(format!("{p}.f{id}.text"), h(t.as_bytes())); }
             Err(e) => { obs.insert(format!("{p}.f{id}.text"), errkind(&e)); }
         }
+        let blob = mem.blob_reader(id).and_then(|mut r| { let mut v = Vec::new(); r.read_to_end(&mut v).map_err(memvid_core::MemvidError::from)?; Ok(v) });
+        match blob {
+            Ok(b) => { obs.insert(format!("{p}.f{id}.blob"), h(&b)); }
+            Err(e) => { obs.insert(format!("{p}.f{id}.blob"), errkind(&e)); }
+        }
         match mem.frame_embedding(id) {
             Ok(Some(e)) => { let b: Vec<u8> = e.iter().flat_map(|x| x.to_le_bytes()).collect(); obs.insert(format!("{p}.f{id}.emb"), h(&b)); }
             Ok(None) => { obs.insert(format!("{p}.f{id}.emb"), "ok:none".into()); }
@@ -185,6 +191,8 @@ fn observe(mem: &mut Memvid, obs: &mut BTreeMap<String, String>, p: &str) {
         }
         Err(e) => { obs.insert(format!("{p}.vsearch"), errkind(&e)); }
     }
+    let ix = memvid_core::verif_hooks::verif_index_state(mem);
+    obs.insert(format!("aux.{p}.lexdocs"), format!("{:?}", ix.lex_num_docs));
     let cards: Vec<String> = mem.memories().cards().iter()
         .map(|c| format!("{}|{}|{}|{}|{}|{:?}|{:?}", c.id, c.entity, c.slot, c.value, c.source_frame_id, c.event_date, c.source_uri)).collect();
     obs.insert(format!("{p}.cards"), format!("ok:{}", cards.join(",")));
@@ -427,7 +435,7 @@ fn classify(orig: &BTreeMap<String, String>, got: &BTreeMap<String, String>) -> 
         if open == "panic" { panics.push(format!("{p}.open")); continue; }
         if open != "ok" { errors.push(format!("{p}.open={open}")); continue; }
         // every read of the original must be reproduced or fail
-        for (k, v) in orig.iter().filter(|(k, _)| k.starts_with(p) && !k.ends_with(".open")) {
+        for (k, v) in orig.iter().filter(|(k, _)| k.starts_with(&format!("{p}.")) && !k.ends_with(".open")) {
             match got.get(k) {
                 Some(g) if g == v => {}
                 Some(g) if g.starts_with("err:") => errors.push(format!("{k}={g}")),
@@ -436,7 +444,7 @@ fn classify(orig: &BTreeMap<String, String>, got: &BTreeMap<String, String>) -> 
             }
         }
         // reads that exist only on the corrupted file (extra frames)
-        for (k, g) in got.iter().filter(|(k, _)| k.starts_with(p)) {
+        for (k, g) in got.iter().filter(|(k, _)| k.starts_with(&format!("{p}."))) {
             if !orig.contains_key(k) && !g.starts_with("err:") { differs.push(format!("{k}: (absent) -> {g}")); }
         }
     }
@@ -451,117 +459,500 @@ fn classify(orig: &BTreeMap<String, String>, got: &BTreeMap<String, String>) -> 
 }
 
 // =======================================================================================
+// black-box facts for the model (computed with memvid_core's own codecs)
+fn frame_desc(f: &Frame) -> String {
+    let on = |v: Option<u64>| v.map(|x| x.to_string()).unwrap_or_else(|| "-".into());
+    let manifest = if f.role == FrameRole::Document { f.chunk_manifest.as_ref().map(|m| m.chunks.len() as u64) } else { None };
+    format!("{},{},{},{},{},{},{},{},{},{},{}",
+        f.payload_offset, f.payload_length, hex::encode(f.checksum),
+        if f.canonical_encoding == CanonicalEncoding::Zstd { 1 } else { 0 }, on(f.canonical_length),
+        if f.status == FrameStatus::Active { 1 } else { 0 }, on(manifest),
+        if f.role == FrameRole::DocumentChunk { 1 } else { 0 }, on(f.parent_id), on(f.chunk_index.map(u64::from)),
+        b3short(frame_meta(f).as_bytes()))
+}
+
+/// (kind, offset, length, checksum) of every embedded segment, in the order the loaders use them
+fn toc_segs(t: &Toc) -> Vec<(&'static str, u64, u64, [u8; 32])> {
+    let mut v = Vec::new();
+    if let Some(m) = &t.time_index { v.push(("time", m.bytes_offset, m.bytes_length, m.checksum)); }
+    for s in &t.segment_catalog.tantivy_segments { v.push(("lex", s.common.bytes_offset, s.common.bytes_length, s.common.checksum)); }
+    if let Some(m) = &t.indexes.vec { v.push(("vec", m.bytes_offset, m.bytes_length, m.checksum)); }
+    if let Some(m) = &t.memories_track { v.push(("memories", m.bytes_offset, m.bytes_length, m.checksum)); }
+    if let Some(m) = &t.logic_mesh { v.push(("mesh", m.bytes_offset, m.bytes_length, m.checksum)); }
+    if let Some(m) = &t.sketch_track { v.push(("sketch", m.bytes_offset, m.bytes_length, m.checksum)); }
+    v
+}
+
+fn toc_desc(t: &Toc) -> String {
+    let ok = guarded(std::panic::AssertUnwindSafe(|| t.verify_checksum().is_ok())).unwrap_or(false);
+    let frames: Vec<String> = t.frames.iter().map(frame_desc).collect();
+    let segs: Vec<String> = toc_segs(t).iter().map(|(k, o, l, c)| format!("{k},{o},{l},{}", hex::encode(c))).collect();
+    format!("{};{};{};{}", if ok { 1 } else { 0 }, b3short(format!("{t:?}").as_bytes()),
+        if frames.is_empty() { "-".into() } else { frames.join("|") }, if segs.is_empty() { "-".into() } else { segs.join("|") })
+}
+
+fn decode_toc(b: &[u8]) -> Option<Toc> {
+    guarded(std::panic::AssertUnwindSafe(|| Toc::decode(b).ok())).unwrap_or(None)
+}
+
+/// fingerprint of what an index segment decodes to (None = it does not decode)
+fn view_of(kind: &str, b: &[u8]) -> Option<String> {
+    let r = guarded(std::panic::AssertUnwindSafe(|| -> Option<String> {
+        match kind {
+            "time" => memvid_core::io::time_index::read_track(&mut std::io::Cursor::new(b), 0, b.len() as u64).ok()
+                .map(|es| b3short(format!("{:?}", es.iter().map(|e| (e.timestamp, e.frame_id)).collect::<Vec<_>>()).as_bytes())),
+            "vec" => memvid_core::vec::VecIndex::decode(b).ok().map(|ix| {
+                let mut es: Vec<(u64, Vec<u32>)> = ix.entries().map(|(id, e)| (id, e.iter().map(|x| x.to_bits()).collect())).collect();
+                es.sort();
+                b3short(format!("{es:?}").as_bytes())
+            }),
+            "memories" => memvid_core::MemoriesTrack::deserialize(b).ok().map(|t| b3short(format!("{:?}", t.cards()).as_bytes())),
+            "mesh" => memvid_core::LogicMesh::deserialize(b).ok().map(|t| b3short(format!("{t:?}").as_bytes())),
+            "sketch" => memvid_core::types::read_sketch_track(&mut std::io::Cursor::new(b), 0, b.len() as u64).ok()
+                .map(|t| b3short(format!("{:?}", t.iter().collect::<Vec<_>>()).as_bytes())),
+            _ => None,
+        }
+    }));
+    r.unwrap_or(None)
+}
+
+/// tolerant re-scan of the WAL region: (absolute payload offset, length, sequence) of every record header
+/// that can be followed from the region start
+fn wal_records(b: &[u8], off: usize, size: usize) -> Vec<(usize, usize, u64)> {
+    let mut v = Vec::new();
+    let mut cur = 0usize;
+    while cur + WAL_HDR <= size && off + cur + WAL_HDR <= b.len() {
+        let hb = &b[off + cur..];
+        let seq = u64::from_le_bytes(hb[..8].try_into().unwrap());
+        let l = u32::from_le_bytes(hb[8..12].try_into().unwrap()) as usize;
+        if (seq == 0 && l == 0) || l == 0 || cur + WAL_HDR + l > size || off + cur + WAL_HDR + l > b.len() { break; }
+        v.push((off + cur + WAL_HDR, l, seq));
+        cur += WAL_HDR + l;
+    }
+    v
+}
+
+fn ranges_key(rs: &[(u64, u64)]) -> String { rs.iter().map(|(o, l)| format!("{o}+{l}")).collect::<Vec<_>>().join(",") }
+
+/// facts about file `b`; `base` = (original bytes, original TOC description) or None when `b` IS the original
+fn facts(b: &[u8], base: Option<(&[u8], &str)>) -> Vec<String> {
+    let mut out: Vec<String> = Vec::new();
+    let len = b.len();
+    let foot = find_last_valid_footer(b);
+    if base.is_some() { out.push(format!("footer={}", foot.as_ref().map(|s| s.footer_offset.to_string()).unwrap_or_else(|| "none".into()))); }
+    let hdr = if len >= HEADER_SIZE { HeaderCodec::decode(b[..HEADER_SIZE].try_into().unwrap()).ok() } else { None };
+    // TOC candidates
+    let mut cands: Vec<(usize, usize)> = Vec::new();
+    if let Some(h) = &hdr {
+        let fo = h.footer_offset as usize;
+        if len >= FOOTER_SIZE && fo < len - FOOTER_SIZE { cands.push((fo, len - FOOTER_SIZE - fo)); }
+    }
+    if let Some(s) = &foot { if !cands.contains(&(s.toc_offset, s.toc_bytes.len())) { cands.push((s.toc_offset, s.toc_bytes.len())); } }
+    for (o, l) in cands {
+        let t = decode_toc(&b[o..o + l]);
+        let desc = t.as_ref().map(toc_desc);
+        let same = match (&desc, base) { (Some(d), Some((_, bd))) => d == bd, _ => false };
+        out.push(format!("toc@{o}+{l}={}", match &desc { None => "err".into(), Some(_) if same => "same".into(), Some(d) => d.clone() }));
+        let Some(t) = t else { continue };
+        let unchanged = |o: u64, l: u64| -> bool {
+            match base { Some((ob, _)) => same && (o + l) as usize <= ob.len().min(len) && ob[o as usize..(o + l) as usize] == b[o as usize..(o + l) as usize], None => false }
+        };
+        for f in &t.frames {
+            if f.canonical_encoding == CanonicalEncoding::Zstd && f.payload_length > 0 && f.payload_length < 1 << 24
+                && (f.payload_offset.saturating_add(f.payload_length) as usize) <= len && !unchanged(f.payload_offset, f.payload_length) {
+                let raw = &b[f.payload_offset as usize..(f.payload_offset + f.payload_length) as usize];
+                let key = format!("uz@{}+{}=", f.payload_offset, f.payload_length);
+                if out.iter().any(|x| x.starts_with(&key)) { continue; }
+                out.push(format!("{key}{}", match memvid_core::verif_decode_zstd_payload(raw) { Some(d) if !d.is_empty() => hex::encode(d), Some(_) => "-".into(), None => "err".into() }));
+            }
+        }
+        let segs = toc_segs(&t);
+        for kind in ["time", "vec", "memories", "mesh", "sketch"] {
+            let rs: Vec<(u64, u64)> = segs.iter().filter(|s| s.0 == kind && s.2 > 0).map(|s| (s.1, s.2)).collect();
+            if rs.is_empty() || rs.iter().any(|(o, l)| o.saturating_add(*l) as usize > len || *l > 1 << 26) { continue; }
+            if rs.iter().all(|(o, l)| unchanged(*o, *l)) { continue; }
+            let bytes: Vec<u8> = rs.iter().flat_map(|(o, l)| b[*o as usize..(*o + *l) as usize].to_vec()).collect();
+            let key = format!("view:{kind}@{}=", ranges_key(&rs));
+            if out.iter().any(|x| x.starts_with(&key)) { continue; }
+            out.push(format!("{key}{}", view_of(kind, &bytes).unwrap_or_else(|| "err".into())));
+        }
+    }
+    // WAL entries (all of them for the original, the pending ones otherwise)
+    if let Some(h) = &hdr {
+        for (po, l, seq) in wal_records(b, h.wal_offset as usize, h.wal_size.min(1 << 32) as usize) {
+            if base.is_some() && seq <= h.wal_sequence { continue; }
+            let k = match memvid_core::memvid::mutation::verif_wal_entry_kind(&b[po..po + l]) { Some(1) => "ins", Some(_) => "other", None => "err" };
+            out.push(format!("we@{po}+{l}={k}"));
+        }
+    }
+    out
+}
+
+// =======================================================================================
+// corruption plan
 fn plan(lay: &Layout, orig: &[u8], rng: &mut Rng, thorough: bool) -> Vec<Mutn> {
     let mut v: Vec<Mutn> = Vec::new();
-    let stride = |sp: &Span| -> usize {
+    // number of sampled positions per span (besides its first and last byte)
+    let samples = |sp: &Span| -> usize {
+        let n = sp.end - sp.start;
+        if thorough { return n; }
         match (sp.region.as_str(), sp.sub.as_str()) {
-            ("wal", "slack") => 64 * if thorough { 1 } else { 16 },
-            ("header", "padding") => if thorough { 16 } else { 256 },
-            ("header", "legacy_lock") => if thorough { 1 } else { 12 },
-            ("header", _) => 1,
-            ("footer", _) => 1,
-            ("wal", s) if s.ends_with("_payload") => if thorough { 1 } else { 29 },
-            ("wal", _) => if thorough { 1 } else { 3 },
-            ("toc", _) => if thorough { 1 } else { 11 },
-            ("payload", _) => if thorough { 1 } else { 23 },
-            ("index", "tantivy") => if thorough { 1 } else { 61 },
-            ("index", _) => if thorough { 1 } else { 7 },
-            ("gap", _) => if thorough { 4 } else { 97 },
+            ("header", "padding") | ("header", "legacy_lock") => 1,
+            ("header", "toc_checksum") => 2,
+            ("header", _) => n,
+            ("footer", "toc_hash") => 3,
+            ("footer", _) => 2,
+            ("wal", "slack") => 2,
+            ("wal", s) if s.ends_with("_seq") => 2,
+            ("wal", s) if s.ends_with("_payload") => 1,
+            ("wal", _) => 1,
+            ("toc", _) => 60,
+            ("payload", _) => 4,
+            ("index", "tantivy") => 3,
+            ("index", _) => 6,
             _ => 1,
         }
     };
+    let mut wal_records_seen = 0;
     for sp in &lay.spans {
-        let st = stride(sp);
-        // a random phase per span so that different seeds visit different bytes
-        let mut o = sp.start + if st > 1 { rng.usize(0, st - 1) } else { 0 };
-        // always the first and last byte of the span
-        let mut offs = vec![sp.start, sp.end - 1];
-        while o < sp.end { offs.push(o); o += st; }
+        let n = sp.end - sp.start;
+        // quick tier: only the first two and the last WAL record get the full treatment
+        if !thorough && sp.region == "wal" && sp.sub.starts_with("applied") {
+            if sp.sub.ends_with("_seq") { wal_records_seen += 1; }
+            if wal_records_seen > 2 && !(sp.sub.ends_with("_seq") && rng.chance(1, 3)) { continue; }
+        }
+        let k = samples(sp);
+        let mut offs: Vec<usize> = if k >= n { (sp.start..sp.end).collect() } else {
+            let mut o = vec![sp.start, sp.end - 1];
+            for _ in 0..k { o.push(rng.usize(sp.start, sp.end - 1)); }
+            o
+        };
         offs.sort(); offs.dedup();
         for o in offs {
             v.push(Mutn::Xor(o, 0xFF));
-            if thorough || sp.region == "header" || sp.region == "footer" || rng.chance(1, 2) { v.push(Mutn::Xor(o, 0x01)); }
+            if thorough || sp.region == "header" || sp.region == "footer" || rng.chance(1, 3) { v.push(Mutn::Xor(o, 0x01)); }
         }
     }
-    // zeroed ranges and truncations at every span boundary ±1
-    let mut bounds: Vec<usize> = lay.spans.iter().map(|s| s.start).collect();
+    // truncations at region boundaries ±1 (quick: the coarse regions only)
+    let mut bounds: Vec<usize> = if thorough { lay.spans.iter().map(|s| s.start).collect() } else {
+        let mut b = vec![HEADER_SIZE, lay.wal_off + lay.wal_size, lay.toc_off, lay.len - FOOTER_SIZE];
+        if let Some(s) = lay.spans.iter().find(|s| s.region == "index") { b.push(s.start); }
+        b
+    };
     bounds.push(lay.len);
-    bounds.dedup();
-    for (i, &b) in bounds.iter().enumerate() {
-        let keep = thorough || i % 3 == 0 || b >= lay.toc_off || b <= HEADER_SIZE + 200;
+    bounds.sort(); bounds.dedup();
+    for &b in &bounds {
         for d in [-1i64, 0, 1] {
             let t = b as i64 + d;
-            if t >= 0 && (t as usize) < lay.len && keep { v.push(Mutn::Trunc(t as usize)); }
+            if t >= 0 && (t as usize) < lay.len { v.push(Mutn::Trunc(t as usize)); }
         }
     }
+    // zeroed ranges: every span whole (quick: one per distinct label), and a short range straddling its start
+    let mut seen: std::collections::BTreeSet<String> = Default::default();
     for sp in &lay.spans {
-        // whole span zeroed, and a short range straddling its start
         if sp.region == "wal" && sp.sub == "slack" { continue; }
+        let label = format!("{}/{}", sp.region, sp.sub);
+        if !thorough && !seen.insert(label) { continue; }
         if orig[sp.start..sp.end].iter().any(|&x| x != 0) { v.push(Mutn::Zero(sp.start, sp.end - sp.start)); }
         let s = sp.start.saturating_sub(1);
         let l = (sp.end - s).min(9);
-        if orig[s..s + l].iter().any(|&x| x != 0) && (thorough || rng.chance(1, 3)) { v.push(Mutn::Zero(s, l)); }
+        if orig[s..s + l].iter().any(|&x| x != 0) && (thorough || rng.chance(1, 4)) { v.push(Mutn::Zero(s, l)); }
     }
     v
+}
+
+/// hand-written corpus: the witnesses of every mechanism (located through the layout)
+fn corpus(lay: &Layout) -> Vec<Mutn> {
+    let mut v = Vec::new();
+    let first = |r: &str, s: &str| lay.spans.iter().find(|x| x.region == r && x.sub == s).map(|x| x.start);
+    if let Some(o) = first("payload", "plain_doc") { v.push(Mutn::Xor(o + 11, 0x01)); }       // (a) the probe's witness
+    if let Some(o) = first("payload", "zstd_chunk") { v.push(Mutn::Xor(o, 0xFF)); }
+    v.push(Mutn::Zero(40, 8));                                                               // header.wal_sequence := 0
+    v.push(Mutn::Xor(25, 0xFF));                                                             // header.wal_size
+    if let Some(o) = first("wal", "applied_seq") { v.push(Mutn::Xor(o, 0xFF)); }             // first record's sequence
+    if let Some(o) = first("index", "time") { v.push(Mutn::Xor(o + 12 + 16 + 8, 0x01)); }    // frame id of the 2nd entry
+    if let Some(o) = first("index", "vec") { v.push(Mutn::Xor(o, 0x01)); }
+    if let Some(o) = first("index", "sketch") { v.push(Mutn::Xor(o + 93237 - 93144, 0xFF)); }
+    if let Some(o) = first("index", "tantivy") { v.push(Mutn::Xor(o, 0x01)); }
+    if let Some(o) = first("index", "memories") { v.push(Mutn::Xor(o + 5, 0x01)); }
+    v.push(Mutn::Xor(lay.toc_off + 40, 0x01));
+    v.push(Mutn::Xor(lay.len - FOOTER_SIZE + 20, 0x01));
+    v.push(Mutn::Trunc(lay.len - 1));
+    v
+}
+
+// =======================================================================================
+// model prediction vs observation
+fn parse_pred(line: &str) -> Option<BTreeMap<String, String>> {
+    let rest = line.strip_prefix("pred ")?;
+    Some(rest.split(' ').filter_map(|t| t.split_once('=').map(|(a, b)| (a.to_string(), b.to_string()))).collect())
+}
+
+fn status(orig: Option<&String>, got: Option<&String>) -> &'static str {
+    match (orig, got) {
+        (_, Some(g)) if g.starts_with("err:") => "err",
+        (Some(o), Some(g)) if o == g => "same",
+        _ => "diff",
+    }
+}
+
+fn agg(sts: &[&'static str]) -> &'static str {
+    if sts.iter().all(|s| *s == "same") { "same" } else if sts.iter().any(|s| *s == "diff") { "diff" } else { "err" }
+}
+
+/// compare the model's per-group statuses with what the implementation did; returns mismatches
+fn compare_pred(pred: &BTreeMap<String, String>, base: &BTreeMap<String, String>, got: &BTreeMap<String, String>, n0: usize) -> Vec<String> {
+    let mut bad = Vec::new();
+    for p in ["ro", "rw"] {
+        let open = got.get(&format!("{p}.open")).cloned().unwrap_or_default();
+        if open == "panic" || open.is_empty() { continue; }
+        let mo = pred.get(&format!("{p}.open")).cloned().unwrap_or_default();
+        let impl_open = if open == "ok" { "ok" } else { "err" };
+        let model_open = if mo == "ok" { "ok" } else { "err" };
+        if impl_open != model_open { bad.push(format!("{p}.open impl={open} model={mo}")); continue; }
+        if impl_open != "ok" { continue; }
+        let mut chk = |name: &str, want: &str, have: &str| { if want != "any" && want != have { bad.push(format!("{p}.{name} impl={have} model={want}")); } };
+        chk("count", pred.get(&format!("{p}.count")).map(|s| s.as_str()).unwrap_or("?"), status(base.get(&format!("{p}.count")), got.get(&format!("{p}.count"))));
+        for (grp, key) in [("meta", "meta"), ("payload", "payload"), ("text", "text")] {
+            let l: Vec<&str> = pred.get(&format!("{p}.{grp}")).map(|s| s.split(',').collect()).unwrap_or_default();
+            for i in 0..n0 {
+                let k = format!("{p}.f{i}.{key}");
+                chk(&format!("f{i}.{key}"), l.get(i).copied().unwrap_or("?"), status(base.get(&k), got.get(&k)));
+            }
+        }
+        let embs: Vec<&'static str> = (0..n0).map(|i| { let k = format!("{p}.f{i}.emb"); status(base.get(&k), got.get(&k)) }).collect();
+        chk("emb", pred.get(&format!("{p}.emb")).map(|s| s.as_str()).unwrap_or("?"), agg(&embs));
+        for g in ["timeline", "vsearch", "cards"] {
+            let k = format!("{p}.{g}");
+            chk(g, pred.get(&k).map(|s| s.as_str()).unwrap_or("?"), status(base.get(&k), got.get(&k)));
+        }
+        let ss: Vec<&'static str> = ["search.quantum", "search.granite", "search.harbor"].iter().map(|q| { let k = format!("{p}.{q}"); status(base.get(&k), got.get(&k)) }).collect();
+        chk("search", pred.get(&format!("{p}.search")).map(|s| s.as_str()).unwrap_or("?"), agg(&ss));
+    }
+    let v = got.get("verify").cloned().unwrap_or_default();
+    if v != "panic" && !v.is_empty() {
+        let have = if v == "ok:Passed" { "passed" } else if v.starts_with("ok:") { "failed" } else { "err" };
+        let mv = pred.get("verify").cloned().unwrap_or_default();
+        let want = if mv.starts_with("err") { "err" } else { mv.as_str() };
+        if have != want { bad.push(format!("verify impl={v} model={mv}")); }
+    }
+    if pred.get("xfooter").map(|s| s.as_str()) != Some("ok") { bad.push("find_last_valid_footer differs from the model's finder".into()); }
+    if pred.get("tags").map(|s| s.contains("MISSING-FACT")).unwrap_or(false) { bad.push("model needed a black-box fact the harness did not supply".into()); }
+    bad
+}
+
+/// oracle side: name the failure class of every silently differing read (independent of the model)
+/// → (signature, model tag that must vouch for it when the signature is a listed finding)
+fn signatures(v: &Verdict, sp: &Span, n0: usize) -> Vec<(String, &'static str)> {
+    let mut out: Vec<(String, &'static str)> = Vec::new();
+    let mut push = |s: &str, t: &'static str| { if !out.iter().any(|(x, _)| x == s) { out.push((s.to_string(), t)); } };
+    for p in ["ro", "rw"] {
+        let mine: Vec<&String> = v.differs.iter().filter(|d| d.starts_with(&format!("{p}."))).collect();
+        if mine.is_empty() { continue; }
+        let replay = mine.iter().any(|d| d.starts_with(&format!("{p}.count:")));
+        let read_errors = v.errors.iter().any(|e| e.starts_with(&format!("{p}.f")) && e.contains(".payload="));
+        for d in mine {
+            let key = d.split(':').next().unwrap_or("");
+            let fidx: Option<usize> = key.split('.').nth(1).and_then(|s| s.strip_prefix('f')).and_then(|s| s.parse().ok());
+            if key.ends_with(".payload") || key.ends_with(".blob") || (key.ends_with(".text") && !replay && fidx.map(|i| i < n0).unwrap_or(false)) {
+                if fidx.map(|i| i < n0).unwrap_or(true) { push("payload-checksum-not-compared", "payload-unchecked"); continue; }
+            }
+            if replay {
+                match sp.region.as_str() {
+                    "header" => push("header-wal-sequence-lowered-replays-applied-records", "wal-replay"),
+                    "wal" => push("wal-record-sequence-not-covered-by-record-hash", "wal-replay"),
+                    _ => push("unexpected-wal-replay", "wal-replay"),
+                }
+                continue;
+            }
+            if key.ends_with(".timeline") && sp.region == "index" && sp.sub == "time" { push("time-index-checksum-not-compared", "time-unchecked"); }
+            else if key.ends_with(".emb") || key.ends_with(".vsearch") { push("vec-index-load-failure-swallowed", "vec-unchecked"); }
+            else if key.contains(".search.") {
+                if sp.region == "index" && sp.sub == "tantivy" { push("lex-index-open-failure-falls-back-to-empty-index", "lex-unchecked"); }
+                else if sp.region == "index" && sp.sub == "sketch" { push("sketch-track-checksum-not-compared", "sketch-unchecked"); }
+                else if sp.region == "toc" && p == "rw" { push("toc-corruption-laundered-by-footer-realign", "toc-laundered"); }
+                else if read_errors { push("search-drops-hits-of-unreadable-frames", "search-swallows-read-errors"); }
+                else { push(&format!("silent-change-{}-{}-search", sp.region, sp.sub), ""); }
+            }
+            else { push(&format!("silent-change-{}-{}-{}", sp.region, sp.sub, key.rsplit('.').next().unwrap_or("")), ""); }
+        }
+    }
+    out
+}
+
+struct Ctx<'a> { orig: &'a [u8], lay: &'a Layout, base: &'a BTreeMap<String, String>, base_desc: String, sh: Shape, n0: usize, known: Vec<String>, use_model: bool, verbose: bool }
+
+fn mut_wire(m: &Mutn) -> String {
+    match *m { Mutn::Xor(o, k) => format!("xor:{o}:{k}"), Mutn::Zero(o, l) => format!("zero:{o}:{l}"), Mutn::Trunc(n) => format!("trunc:{n}") }
+}
+
+fn mut_offset(m: &Mutn, len: usize) -> usize { match *m { Mutn::Xor(o, _) => o, Mutn::Zero(s, _) => s, Mutn::Trunc(n) => n.min(len - 1) } }
+
+fn evaluate(cx: &Ctx, m: &Mutn, got: &Result<BTreeMap<String, String>, String>, drv: &mut Driver, sum: &mut Summary) {
+    let sp = cx.lay.span_of(mut_offset(m, cx.lay.len)).clone();
+    let rel = mut_offset(m, cx.lay.len) - sp.start;
+    let ordinal = cx.lay.spans.iter().filter(|s| s.region == sp.region && s.sub == sp.sub && s.start < sp.start).count();
+    let case = json!({"shape": cx.sh.to_json(), "mutation": m.to_json(), "region": sp.region, "sub": sp.sub, "rel": rel, "ordinal": ordinal});
+    let label = format!("{}/{} {}", sp.region, sp.sub, m.kind());
+    let got = match got {
+        Ok(g) => g,
+        Err(e) => { sum.branch(&format!("child-{e}")); sum.case(&format!("{label}|child-{e}"), false, || json!({})); return; }
+    };
+    let v = classify(cx.base, got);
+    sum.branch(&format!("class-{}", v.class));
+    sum.branch(&format!("region-{}", sp.region));
+    if !v.panics.is_empty() { sum.branch("child-panic-caught"); }
+    // model
+    let mut model_line = String::from("(no model)");
+    let mut tags: Vec<String> = Vec::new();
+    if cx.use_model {
+        let mutated = m.apply(cx.orig);
+        let mut fx = facts(&mutated, Some((cx.orig, &cx.base_desc)));
+        let docs0 = |p: &str| cx.base.get(&format!("aux.{p}.lexdocs")).cloned().unwrap_or_default();
+        for p in ["ro", "rw"] {
+            let d = got.get(&format!("aux.{p}.lexdocs")).cloned().unwrap_or_default();
+            if d == "Some(0)" && docs0(p) != "Some(0)" { fx.push(format!("lex{p}=fallback")); }
+        }
+        model_line = drv.ask(&format!("case src {} {}", mut_wire(m), fx.join(" ")));
+        match parse_pred(&model_line) {
+            Some(pred) => {
+                tags = pred.get("tags").map(|t| t.split(',').map(|s| s.to_string()).collect()).unwrap_or_default();
+                for t in &tags { if t != "-" { sum.branch(&format!("model-tag-{t}")); } }
+                let bad = compare_pred(&pred, cx.base, got, cx.n0);
+                if !bad.is_empty() {
+                    sum.disagreement(&format!("{label}: {}", bad.join("; ")), case.clone(), &model_line, &format!("{:?}", v));
+                }
+            }
+            None => sum.disagreement(&format!("{label}: driver answered {model_line}"), case.clone(), &model_line, ""),
+        }
+    }
+    if cx.verbose {
+        println!("mutation {:?} in {}/{} (+{rel})", m, sp.region, sp.sub);
+        println!("impl : class={} verify={} differs={:?} errors={:?} panics={:?}", v.class, v.verify, v.differs, v.errors, v.panics);
+        println!("model: {model_line}");
+    }
+    // oracle (independent of the model)
+    let sigs = signatures(&v, &sp, cx.n0);
+    for (sig, tag) in &sigs {
+        let what = format!("{label} at {}: {} read(s) differ without an error, e.g. {}; verify(deep)={}", mut_offset(m, cx.lay.len), v.differs.len(),
+            v.differs.iter().find(|_| true).map(|s| s.chars().take(160).collect::<String>()).unwrap_or_default(), v.verify);
+        if cx.known.contains(sig) && !tag.is_empty() && tags.iter().any(|t| t == tag) { sum.known_finding(sig, &what, case.clone()); }
+        else { sum.oracle_violation(sig, &what, case.clone()); }
+    }
+    if v.class == "verify-passed-but-differs" {
+        sum.oracle_violation("verify-deep-passes-on-a-file-whose-reads-differ", &format!("{label}: verify(deep)=Passed but {}", v.differs.iter().take(2).cloned().collect::<Vec<_>>().join(" | ").chars().take(300).collect::<String>()), case.clone());
+    }
+    let canon = format!("{label}|{}|{}|{:?}", mut_offset(m, cx.lay.len), v.class, v.errors.first());
+    sum.case(&canon, v.class != "harmless", || json!({"mutation": m.to_json(), "region": sp.region, "sub": sp.sub, "class": v.class, "verify": v.verify,
+        "first_error": v.errors.first(), "first_difference": v.differs.first().map(|s| s.chars().take(120).collect::<String>()), "model_tags": tags}));
+}
+
+fn run_all(cx: &Ctx, muts: &[Mutn], dir: &Path, jobs: usize, drv: &mut Driver, sum: &mut Summary) {
+    let next = Arc::new(AtomicUsize::new(0));
+    let results: Arc<Mutex<Vec<Option<Result<BTreeMap<String, String>, String>>>>> = Arc::new(Mutex::new(vec![None; muts.len()]));
+    let muts_a = Arc::new(muts.to_vec());
+    let orig = Arc::new(cx.orig.to_vec());
+    let mut hs = Vec::new();
+    for t in 0..jobs {
+        let (next, results, muts_a, orig) = (next.clone(), results.clone(), muts_a.clone(), orig.clone());
+        let p = dir.join(format!("w{t}.mv2"));
+        hs.push(std::thread::spawn(move || loop {
+            let i = next.fetch_add(1, Ordering::SeqCst);
+            if i >= muts_a.len() { break; }
+            let b = muts_a[i].apply(&orig);
+            if std::fs::write(&p, &b).is_err() { results.lock().unwrap()[i] = Some(Err("write-failed".into())); continue; }
+            let r = run_child(&p);
+            results.lock().unwrap()[i] = Some(r);
+        }));
+    }
+    for h in hs { let _ = h.join(); }
+    let results = results.lock().unwrap();
+    for (i, m) in muts.iter().enumerate() {
+        evaluate(cx, m, results[i].as_ref().unwrap(), drv, sum);
+    }
 }
 
 fn main() {
     let argv: Vec<String> = std::env::args().collect();
     if argv.get(1).map(|s| s.as_str()) == Some("child") { child_main(&argv[2]); }
     let args = parse_args();
-    let mut sum = Summary::new("C20", &args, "probe");
+    let use_model = args.driver.to_str() != Some("none");
+    let mut drv = Driver::spawn(if use_model { &args.driver } else { Path::new("/bin/cat") }).expect("spawn driver");
+    let mut sum = Summary::new("C20", &args,
+        "committed closed .mv2 files built through the API (binary Plain payload, zstd text, chunked document, two embedded frames, \
+         memory card; two commits; ~110 KiB incl. the 64 KiB WAL region) corrupted by single-byte XOR 0xFF / 0x01 at every header and \
+         footer byte and at sampled positions of every other span (quick) or every byte (thorough), zeroed spans, truncations at region \
+         boundaries ±1; each corrupted copy handled in a child process (verify(deep), open_read_only + all reads, open + all reads); \
+         non-trivial = not classified harmless; distinct = region/sub + mutation kind + offset + class");
+    sum.expect_branches(&["class-detected", "class-harmless", "region-header", "region-wal", "region-payload", "region-index", "region-toc", "region-footer"]);
+    let known: Vec<String> = args.extra.get("known").map(|s| s.split(',').map(|x| x.to_string()).collect()).unwrap_or_default();
+    let jobs = args.extra.get("jobs").and_then(|s| s.parse().ok()).unwrap_or(4usize);
     let dir = tempfile::tempdir().expect("tempdir");
-    let sh = Shape { seed: args.seed, bin_len: 500, commits: 2, with_vec: true, with_card: true, with_chunks: true };
-    let path = dir.path().join("orig.mv2");
-    build_file(&path, &sh).expect("build");
-    let orig = std::fs::read(&path).unwrap();
-    let lay = layout(&orig).expect("layout");
-    for sp in &lay.spans { println!("span {:>7}..{:>7} {:>6} {} {}", sp.start, sp.end, sp.end - sp.start, sp.region, sp.sub); }
-    let base = run_child(&path).expect("child on original");
-    println!("base {}", serde_json::to_string(&base).unwrap());
-    let base2 = run_child(&path).expect("child on original");
-    assert_eq!(base, base2, "observations are not deterministic");
-    let mut rng = Rng::new(args.seed);
-    let muts = plan(&lay, &orig, &mut rng, args.thorough);
-    println!("{} corruptions planned", muts.len());
-    let next = Arc::new(AtomicUsize::new(0));
-    let results: Arc<Mutex<Vec<Option<Result<BTreeMap<String, String>, String>>>>> = Arc::new(Mutex::new(vec![None; muts.len()]));
-    let nthreads = args.extra.get("jobs").and_then(|s| s.parse().ok()).unwrap_or(4usize);
-    let muts = Arc::new(muts);
-    let orig = Arc::new(orig);
-    let t0 = Instant::now();
-    let mut hs = Vec::new();
-    for t in 0..nthreads {
-        let (next, results, muts, orig) = (next.clone(), results.clone(), muts.clone(), orig.clone());
-        let p = dir.path().join(format!("w{t}.mv2"));
-        hs.push(std::thread::spawn(move || loop {
-            let i = next.fetch_add(1, Ordering::SeqCst);
-            if i >= muts.len() { break; }
-            let b = muts[i].apply(&orig);
-            std::fs::write(&p, &b).unwrap();
+    let shapes: Vec<Shape> = if args.mode == "replay" {
+        let case = load_replay(args.replay_file.as_ref().expect("replay file"));
+        let input = case.get("input").unwrap_or(&case).clone();
+        vec![Shape::from_json(&input["shape"])]
+    } else if args.thorough {
+        vec![Shape { seed: args.seed, bin_len: 500, commits: 2, with_vec: true, with_card: true, with_chunks: true },
+             Shape { seed: args.seed + 1, bin_len: 64, commits: 1, with_vec: false, with_card: false, with_chunks: false },
+             Shape { seed: args.seed + 2, bin_len: 2000, commits: 2, with_vec: true, with_card: true, with_chunks: false }]
+    } else {
+        vec![Shape { seed: args.seed, bin_len: 500, commits: 2, with_vec: true, with_card: true, with_chunks: true }]
+    };
+    for (si, sh) in shapes.iter().enumerate() {
+        let path = dir.path().join(format!("orig{si}.mv2"));
+        if let Err(e) = build_file(&path, sh) { sum.notes.push(format!("building the file failed: {e}")); sum.oracle_violation("file-build-failed", &e, sh.to_json()); continue; }
+        let orig = std::fs::read(&path).unwrap();
+        let lay = match layout(&orig) { Ok(l) => l, Err(e) => { sum.oracle_violation("layout-failed", &e, sh.to_json()); continue; } };
+        let base = match run_child(&path) { Ok(b) => b, Err(e) => { sum.oracle_violation("original-file-kills-the-child", &e, sh.to_json()); continue; } };
+        if base.get("verify").map(|s| s.as_str()) != Some("ok:Passed") || base.get("ro.open").map(|s| s.as_str()) != Some("ok") || base.get("rw.open").map(|s| s.as_str()) != Some("ok") {
+            sum.oracle_violation("original-file-does-not-verify", &format!("verify={:?} ro={:?} rw={:?}", base.get("verify"), base.get("ro.open"), base.get("rw.open")), sh.to_json());
+            continue;
+        }
+        let n0 = lay.toc.frames.len();
+        let base_desc = toc_desc(&lay.toc);
+        if use_model {
+            let fx = facts(&orig, None);
+            let a = drv.ask(&format!("load {} {}", hexw(&orig), fx.join(" ")));
+            let want = format!("ok {} {}", orig.len(), orig.len() - FOOTER_SIZE);
+            if a != want { sum.disagreement("driver load of the original file", sh.to_json(), &a, &want); continue; }
+            // the uncorrupted file: the model must predict `same` everywhere and verify = passed
+            let a = drv.ask(&format!("case src none footer={}", orig.len() - FOOTER_SIZE));
+            let okp = parse_pred(&a).map(|p| p.iter().all(|(k, v)| match k.as_str() { "verify" => v == "passed", "tags" => v == "-", "xfooter" => v == "ok",
+                _ if k.ends_with(".open") => v == "ok", _ => v.split(',').all(|x| x == "same") })).unwrap_or(false);
+            if !okp { sum.disagreement("model on the uncorrupted file", sh.to_json(), &a, "all same, verify=passed"); continue; }
+        }
+        let cx = Ctx { orig: &orig, lay: &lay, base: &base, base_desc, sh: sh.clone(), n0, known: known.clone(), use_model, verbose: args.mode == "replay" };
+        if args.mode == "replay" {
+            let case = load_replay(args.replay_file.as_ref().unwrap());
+            let input = case.get("input").unwrap_or(&case).clone();
+            let mut m = Mutn::from_json(&input["mutation"]);
+            // the file is rebuilt: if the span under the recorded offset is not the recorded one, relocate
+            let (r, s) = (input["region"].as_str().unwrap_or(""), input["sub"].as_str().unwrap_or(""));
+            let sp = lay.span_of(mut_offset(&m, lay.len));
+            if !r.is_empty() && (sp.region != r || sp.sub != s) {
+                let ord = input["ordinal"].as_u64().unwrap_or(0) as usize;
+                if let Some(t) = lay.spans.iter().filter(|x| x.region == r && x.sub == s).nth(ord) {
+                    let o = t.start + (input["rel"].as_u64().unwrap_or(0) as usize).min(t.end - t.start - 1);
+                    m = match m { Mutn::Xor(_, k) => Mutn::Xor(o, k), Mutn::Zero(_, l) => Mutn::Zero(o, l), Mutn::Trunc(_) => Mutn::Trunc(o) };
+                }
+            }
+            println!("file: {} bytes, {} frames; spans:", lay.len, n0);
+            let p = dir.path().join("replay.mv2");
+            std::fs::write(&p, m.apply(&orig)).unwrap();
             let r = run_child(&p);
-            results.lock().unwrap()[i] = Some(r);
-        }));
+            evaluate(&cx, &m, &r, &mut drv, &mut sum);
+            sum.model_requests = drv.requests;
+            sum.finish(&args);
+        }
+        let mut rng = Rng::new(args.seed.wrapping_add(si as u64));
+        let mut muts = corpus(&lay);
+        for m in plan(&lay, &orig, &mut rng, args.thorough) { if !muts.contains(&m) { muts.push(m); } }
+        sum.notes.push(format!("file {si}: {} bytes, {} frames, {} spans, {} corruptions", lay.len, n0, lay.spans.len(), muts.len()));
+        run_all(&cx, &muts, dir.path(), jobs, &mut drv, &mut sum);
     }
-    for h in hs { h.join().unwrap(); }
-    println!("ran {} children in {:.1}s", muts.len(), t0.elapsed().as_secs_f64());
-    let results = results.lock().unwrap();
-    let mut table: BTreeMap<String, BTreeMap<String, u64>> = BTreeMap::new();
-    let mut examples: BTreeMap<String, String> = BTreeMap::new();
-    for (i, m) in muts.iter().enumerate() {
-        let off = match *m { Mutn::Xor(o, _) => o, Mutn::Zero(s, _) => s, Mutn::Trunc(n) => n.min(lay.len - 1) };
-        let sp = lay.span_of(off);
-        let key = format!("{}/{} {}", sp.region, sp.sub, m.kind());
-        let (class, detail) = match results[i].as_ref().unwrap() {
-            Ok(g) => { let v = classify(&base, g); (v.class.clone(), format!("{:?} differs={:?} errors={:?} verify={} panics={:?}", m, &v.differs[..v.differs.len().min(3)], &v.errors[..v.errors.len().min(3)], v.verify, v.panics)) }
-            Err(e) => (format!("child-{e}"), format!("{m:?}")),
-        };
-        *table.entry(key.clone()).or_default().entry(class.clone()).or_insert(0) += 1;
-        examples.entry(format!("{key} -> {class}")).or_insert(detail);
-    }
-    for (k, v) in &table { println!("TABLE {k:45} {v:?}"); }
-    for (k, v) in &examples { println!("EX {k}: {v}"); }
-    sum.case("probe", true, || json!({}));
-    let _ = (lay.wal_off, lay.wal_size, lay.wal_seq, &lay.toc, Shape::from_json(&sh.to_json()), Mutn::from_json(&Mutn::Trunc(0).to_json()));
+    let panics = sum.branches.get("child-panic-caught").copied().unwrap_or(0) + sum.branches.get("child-died").copied().unwrap_or(0) + sum.branches.get("child-hang").copied().unwrap_or(0);
+    if panics > 0 { sum.notes.push(format!("{panics} corrupted files made the implementation panic/abort/hang in the child process (property C22, not a C20 verdict)")); }
+    sum.model_requests = drv.requests;
     sum.finish(&args);
 }
